@@ -52,6 +52,10 @@ PENDING_FINDINGS = {
     'generate:callable:instance-transfer':
         'girwriter.c never writes the instance parameter, so instance transfer-ownership="full" '
         '(SignatureBlob.instance_transfer_ownership) is lost in the generated GIR',
+    'generate:boxed:crash':
+        'g-ir-generate aborts on every typelib that has a <glib:boxed> entry: girwriter.c write_struct_info calls '
+        'g_struct_info_get_copy_function on the GI_INFO_TYPE_BOXED info, whose g_return_val_if_fail (GI_IS_STRUCT_INFO) '
+        'only admits GI_INFO_TYPE_STRUCT; tools/generate.c makes criticals fatal',
 }
 
 # ------------------------------------------------------------------------------------------
@@ -293,11 +297,16 @@ class Gen(object):
             s += '%s</parameters>\n' % indent
         return s
 
-    def function(self, indent, tag, owner_prefix, extra='', owner=None):
+    HIDDEN = ' introspectable="0"'      # the compiler skips such an element (girparser.c introspectable_prelude)
+
+    def function(self, indent, tag, owner_prefix, extra='', owner=None, hidden=False):
         rng = self.rng
         ret = ('t', owner, 'T%s*' % owner, []) if tag == 'constructor' else None
         nm = self.name({'function': 'fn', 'method': 'meth', 'constructor': 'new'}[tag])
         a = ' name="%s" c:identifier="%s_%s"' % (nm, owner_prefix, nm)
+        if hidden:
+            a += self.HIDDEN
+            self.stats.hit('hidden:function')
         a += self.deprecated(0.12)
         if rng.random() < 0.15:
             a += ' throws="1"'
@@ -319,6 +328,9 @@ class Gen(object):
         rng = self.rng
         nm = nm or self.name('fld')
         a = ' name="%s"' % nm
+        if rng.random() < 0.06:
+            a += self.HIDDEN        # a field stays, typed gpointer; its content is skipped
+            self.stats.hit('hidden:field')
         if rng.random() < 0.5:
             a += ' writable="1"'
         r = rng.random()
@@ -338,7 +350,7 @@ class Gen(object):
         self.stats.hit('field:plain')
         return '%s<field%s>\n%s%s%s</field>\n' % (indent, a, at, self.render_type(self.gtype(in_field=True), indent + '  '), indent)
 
-    def constant(self, indent, toplevel):
+    def constant(self, indent, toplevel, hidden=False):
         rng = self.rng
         nm = self.name('CONST')
         kind = rng.choice(['gint', 'gint', 'guint', 'gint8', 'guint8', 'gint16', 'guint16', 'gint64', 'guint64', 'gboolean',
@@ -360,16 +372,22 @@ class Gen(object):
             val = str(rng.choice([lo, hi, 0, 1, rng.randint(lo, hi)]))
             ctype = kind
         a = ' name="%s" value=%s c:type="T_%s"' % (nm, quoteattr(val), nm)
+        if hidden:
+            a += self.HIDDEN
+            self.stats.hit('hidden:constant')
         a += self.deprecated(0.1)
         at = self.attrs(indent + '  ')
         if at and not toplevel:
             self.stats.hit('attrs-on:member-constant')
         return '%s<constant%s>\n%s%s  <type name="%s" c:type="%s"/>\n%s</constant>\n' % (indent, a, at, indent, kind, ctype, indent)
 
-    def prop(self, indent, methods):
+    def prop(self, indent, methods, hidden=False):
         rng = self.rng
         nm = self.name('prop')
         a = ' name="%s"' % nm
+        if hidden:
+            a += self.HIDDEN
+            self.stats.hit('hidden:property')
         r = rng.random()
         readable, writable = True, False
         if r < 0.3:
@@ -398,10 +416,13 @@ class Gen(object):
             self.stats.hit('attrs-on:property')
         return nm, '%s<property%s>\n%s%s%s</property>\n' % (indent, a, at, self.render_type(self.gtype(), indent + '  '), indent)
 
-    def signal(self, indent):
+    def signal(self, indent, hidden=False):
         rng = self.rng
         nm = self.name('sig').replace('sig', 'sig-')
         a = ' name="%s"' % nm
+        if hidden:
+            a += self.HIDDEN
+            self.stats.hit('hidden:signal')
         w = rng.choice([None, 'first', 'last', 'cleanup', 'FIRST', 'LAST'])
         if w:
             a += ' when="%s"' % w
@@ -410,10 +431,13 @@ class Gen(object):
                 a += ' %s="1"' % flag
         return nm, '%s<glib:signal%s>\n%s%s</glib:signal>\n' % (indent, a, self.callable_body(indent + '  ', max_args=2), indent)
 
-    def vfunc(self, indent, methods):
+    def vfunc(self, indent, methods, hidden=False):
         rng = self.rng
         nm = self.name('vf')
         a = ' name="%s"' % nm
+        if hidden:
+            a += self.HIDDEN
+            self.stats.hit('hidden:vfunc')
         if rng.random() < 0.8:
             a += ' offset="%d"' % rng.choice([0, 8, 16, 136, 65534])
         if methods and rng.random() < 0.4:
@@ -434,7 +458,23 @@ class Gen(object):
             self.stats.hit('deprecated:%s' % kind)
         return a
 
-    def record(self, n_fields=None, emb_mask=None, n_methods=None, boxed=False):
+    def boxed(self):
+        """<glib:boxed>: BLOB_TYPE_BOXED, a StructBlob with plain fields and functions"""
+        rng = self.rng
+        nm = self.name('Bx')
+        a = ' glib:name="%s" c:symbol-prefix="%s" glib:type-name="T%s" glib:get-type="t_%s_get_type"' % (nm, nm.lower(), nm, nm.lower())
+        a += self.deprecated(0.15)
+        body = self.attrs('      ')
+        for i in range(rng.choice([0, 1, 2])):
+            body += self.field('      ', False)
+        for i in range(rng.choice([0, 1, 2])):
+            body += self.function('      ', 'function', 't_' + nm.lower())[1]
+        self.out.append(('boxed', nm, '    <glib:boxed%s>\n%s    </glib:boxed>\n' % (a, body)))
+        self.records.append(nm)
+        self.stats.hit('boxed')
+        return nm
+
+    def record(self, n_fields=None, emb_mask=None, n_methods=None, hidden=False):
         rng = self.rng
         nm = self.name('Rec')
         if n_fields is None:
@@ -444,6 +484,12 @@ class Gen(object):
         if n_methods is None:
             n_methods = rng.choice([0, 1, 2])
         a = self.common_attrs('record', nm)
+        if hidden:
+            a += self.HIDDEN
+            self.stats.hit('hidden:record')
+        elif self.classes and rng.random() < 0.15:
+            a += ' glib:is-gtype-struct-for="%s"' % rng.choice(self.classes)
+            self.stats.hit('record:gtype-struct')
         if rng.random() < 0.12:
             a += ' foreign="1"'
             self.stats.hit('record:foreign')
@@ -453,9 +499,12 @@ class Gen(object):
         for i in range(n_fields):
             body += self.field('      ', emb_mask[i])
         for i in range(n_methods):
+            if rng.random() < 0.1:
+                body += self.function('      ', 'method', 't_' + nm.lower(), owner=nm, hidden=True)[1]
             body += self.function('      ', rng.choice(['method', 'method', 'function', 'constructor']), 't_' + nm.lower(), owner=nm)[1]
         self.out.append(('record', nm, '    <record%s>\n%s    </record>\n' % (a, body)))
-        self.records.append(nm)
+        if not hidden:
+            self.records.append(nm)
         self.stats.hit('record:fields=%d,emb=%s,methods=%d' % (min(n_fields, 2), ''.join('1' if e else '0' for e in emb_mask)[:4], min(n_methods, 1)))
         return nm
 
@@ -479,7 +528,7 @@ class Gen(object):
         self.stats.hit('union:fields=%d,methods=%d' % (min(n_fields, 2), min(n_methods, 1)))
         return nm
 
-    def enum(self, n_values=None, n_methods=None):
+    def enum(self, n_values=None, n_methods=None, hidden=False):
         rng = self.rng
         tag = rng.choice(['enumeration', 'bitfield'])
         nm = self.name('En' if tag == 'enumeration' else 'Fl')
@@ -488,6 +537,9 @@ class Gen(object):
         if n_methods is None:
             n_methods = rng.choice([0, 0, 1, 2])
         a = self.common_attrs(tag, nm)
+        if hidden:
+            a += self.HIDDEN
+            self.stats.hit('hidden:enum')
         if tag == 'enumeration' and rng.random() < 0.2:
             a += ' glib:error-domain="t-%s-quark"' % nm.lower()
         body = self.attrs('      ')
@@ -504,7 +556,8 @@ class Gen(object):
         for i in range(n_methods):
             body += self.function('      ', 'function', 't_' + nm.lower())[1]
         self.out.append((tag, nm, '    <%s%s>\n%s    </%s>\n' % (tag, a, body, tag)))
-        self.enums.append(nm)
+        if not hidden:
+            self.enums.append(nm)
         self.stats.hit('enum:values=%d,methods=%d' % (min(n_values, 2), min(n_methods, 1)))
         return nm
 
@@ -517,6 +570,8 @@ class Gen(object):
         for i in range(sections.get('methods', 0)):
             tag = rng.choice(['method', 'method', 'method', 'function', 'constructor']) if with_fields else \
                 rng.choice(['method', 'method', 'function'])
+            if rng.random() < 0.1:      # an extra, skipped method in front: shifts nothing in the typelib
+                methods_txt += self.function(ind, 'method', 't_' + owner.lower(), owner=owner, hidden=True)[1]
             nm, txt = self.function(ind, tag, 't_' + owner.lower(), owner=owner)
             method_names.append((nm, tag))
             methods_txt += txt
@@ -528,6 +583,8 @@ class Gen(object):
                 chunks.append(self.field(ind, emb[i]))
         prop_names = []
         for i in range(sections.get('properties', 0)):
+            if rng.random() < 0.1:
+                chunks.append(self.prop(ind, only_methods, hidden=True)[1])
             nm, txt = self.prop(ind, only_methods)
             prop_names.append(nm)
             chunks.append(txt)
@@ -540,10 +597,16 @@ class Gen(object):
             self.stats.hit('accessor-method')
         chunks.append(methods_txt)
         for i in range(sections.get('signals', 0)):
+            if rng.random() < 0.1:
+                chunks.append(self.signal(ind, hidden=True)[1])
             chunks.append(self.signal(ind)[1])
         for i in range(sections.get('vfuncs', 0)):
+            if rng.random() < 0.1:
+                chunks.append(self.vfunc(ind, only_methods, hidden=True)[1])
             chunks.append(self.vfunc(ind, only_methods)[1])
         for i in range(sections.get('constants', 0)):
+            if rng.random() < 0.1:
+                chunks.append(self.constant(ind, toplevel=False, hidden=True))
             chunks.append(self.constant(ind, toplevel=False))
         if rng.random() < 0.5:
             rng.shuffle(chunks)       # sections may interleave in GIR; the typelib groups them by kind
@@ -614,6 +677,20 @@ class Gen(object):
             nm, txt = self.callback('    ')
             self.out.append(('callback', nm, txt))
             self.callbacks.append(nm)
+        if rng.random() < 0.3:
+            nm, txt = self.function('    ', 'function', 't', hidden=True)
+            self.out.append(('function', nm, txt))
+        if rng.random() < 0.2:
+            self.out.append(('constant', None, self.constant('    ', toplevel=True, hidden=True)))
+        if rng.random() < 0.25:
+            # a shadowed function is skipped, the one shadowing it takes its name
+            old, txt = self.function('    ', 'function', 't')
+            new, txt2 = self.function('    ', 'function', 't')
+            txt = txt.replace('<function name="%s"' % old, '<function name="%s" shadowed-by="%s"' % (old, new), 1)
+            txt2 = txt2.replace('<function name="%s"' % new, '<function name="%s" shadows="%s"' % (new, old), 1)
+            self.out.append(('function', old, txt))
+            self.out.append(('function', new, txt2))
+            self.stats.hit('shadows')
 
     def text(self):
         s = '<?xml version="1.0"?>\n<repository version="1.2" xmlns="%s" xmlns:c="%s" xmlns:glib="%s">\n' % (CORE, CNS, GLIB)
@@ -641,7 +718,7 @@ OBJ_SECTIONS = ('interfaces', 'fields', 'properties', 'methods', 'signals', 'vfu
 IFC_SECTIONS = ('interfaces', 'properties', 'methods', 'signals', 'vfuncs', 'constants')
 
 
-def gen_gir(rng, ns, obj_combos, ifc_combos, use_base=True):
+def gen_gir(rng, ns, obj_combos, ifc_combos, use_base=True, with_boxed=False):
     """One GIR: support entries, then objects/interfaces for the given empty/non-empty section
     combinations (bit masks over OBJ_SECTIONS / IFC_SECTIONS), records, unions, enums, misc."""
     g = Gen(rng, ns, use_base)
@@ -666,9 +743,15 @@ def gen_gir(rng, ns, obj_combos, ifc_combos, use_base=True):
         g.klass(sec, sec.get('interfaces', 0))
     for _ in range(rng.choice([1, 2])):
         g.record()
+    if rng.random() < 0.25:
+        g.record(hidden=True)          # a skipped entry between visible ones: directory indices shift
+    if with_boxed:
+        g.boxed()
     g.union()
     for _ in range(rng.choice([1, 2])):
         g.enum()
+    if rng.random() < 0.2:
+        g.enum(hidden=True)
     g.toplevel_misc()
     return g
 
@@ -700,9 +783,11 @@ class Api(object):
     does not determine are emitted as `*` (matched as wildcard):
       * struct/union size, alignment, field offsets, enum storage type (computed by giroffsets.c: C08);
       * field bit size (girnode.c always stores 0);
-      * `pointer=` in the generate dialect (g-ir-generate writes no c:type);
-      * the readable bit of a field that carries a `readable` attribute in the source dialect
-        (girparser.c reads that attribute inverted; GIR->blob translation is C06's subject)."""
+      * `pointer=` in the generate dialect (g-ir-generate writes no c:type).
+    Everything else a GIR element says is expected literally from the API and from g-ir-generate:
+    return-value skip/nullable/allow-none and <attribute>s for every callable kind, <attribute>s of
+    fields, properties, enum members and class-level constants on THAT node, field readable="0",
+    property deprecated, deprecated="0" / glib:fundamental="0" meaning false."""
 
     def __init__(self, text, dialect):
         self.dialect = dialect
@@ -711,7 +796,7 @@ class Api(object):
         self.ns = self.nsel.get('name')
         self.lines = []
         self.kinds = {}
-        self.entries = [e for e in self.nsel if self.entry_kind(e) is not None]
+        self.entries = [e for e in self.nsel if self.entry_kind(e) is not None and not self.skipped(e)]
         for e in self.entries:
             self.kinds[self.entry_name(e)] = self.entry_kind(e)
 
@@ -740,7 +825,21 @@ class Api(object):
         return None
 
     def entry_name(self, e):
-        return e.get(gq('name')) if e.tag == gq('boxed') else e.get('name')
+        if e.tag == gq('boxed'):
+            return e.get(gq('name'))
+        return self.fname(e) if e.tag == q('function') else e.get('name')
+
+    @staticmethod
+    def fname(e):
+        """a function that shadows another one is known by the name of the shadowed one"""
+        return e.get('shadows') or e.get('name')
+
+    @staticmethod
+    def skipped(e):
+        """girparser.c introspectable_prelude: introspectable="0" or shadowed-by: the element and its content
+        are not in the typelib (a field stays, typed gpointer)"""
+        i = e.get('introspectable')
+        return (i is not None and i.strip() in ('0', '')) or e.get('shadowed-by') is not None
 
     def p(self, s):
         self.lines.append(s)
@@ -797,6 +896,10 @@ class Api(object):
             subs = [c for c in t if c.tag in (q('type'), q('array'))]
             if subs:
                 self.dump_type(path + '.p0', subs[0], ctx)
+            elif at == 3:
+                # a GLib.ByteArray without an element type is not valid GIR (its element is guint8 by definition;
+                # girnode.c names the type "GByteArray" whatever the element): outside, not judged
+                self.p('%s.p0 type tag=* pointer=*' % path)
             else:
                 self.p('%s.p0 type tag=0 pointer=%s' % (path, '*' if gen else 1))
             return
@@ -897,7 +1000,7 @@ class Api(object):
         if e.get('throws') == '1':
             flags |= 32
         self.p('%s function name=%s deprecated=%d symbol=%s flags=%d' % (
-            path, e.get('shadows') or e.get('name'), self.dep(e), e.get(cq('identifier')), flags))
+            path, self.fname(e), self.dep(e), e.get(cq('identifier')), flags))
         if acc is not None:
             self.p('%s accessor_of=%s' % (path, acc))
         self.attrs(path, e)
@@ -909,6 +1012,10 @@ class Api(object):
         writable = 1 if e.get('writable') == '1' else 0
         flags = str(readable + 2 * writable)
         self.p('%s field name=%s flags=%s size=* offset=*' % (path, e.get('name'), flags))
+        if self.skipped(e):
+            self.p('%s attrget.missing=(null)' % path)
+            self.p('%s.t type tag=0 pointer=1' % path)
+            return
         self.attrs(path, e)
         cb = e.find(q('callback'))
         if cb is not None and gen and cb.get('name') != e.get('name'):
@@ -1013,7 +1120,10 @@ class Api(object):
         return tn or '(null)', ti or '(null)'
 
     def functions_of(self, e):
-        return [c for c in e if c.tag in (q('function'), q('method'), q('constructor'))]
+        return [c for c in e if c.tag in (q('function'), q('method'), q('constructor')) and not self.skipped(c)]
+
+    def visible(self, e, tag):
+        return [c for c in e.findall(tag) if not self.skipped(c)]
 
     def find_lines(self, path, prefix, names):
         for j, n in enumerate(names):
@@ -1037,7 +1147,7 @@ class Api(object):
         self.find_lines(path, 'f', [f.get('name') for f in fields])
         for j, m in enumerate(methods):
             self.dump_function('%s.m%d' % (path, j), m)
-        self.find_lines(path, 'm', [m.get('name') for m in methods])
+        self.find_lines(path, 'm', [self.fname(m) for m in methods])
 
     def dump_union(self, path, e):
         fields = e.findall(q('field'))
@@ -1050,7 +1160,7 @@ class Api(object):
             self.dump_field('%s.f%d' % (path, j), f)
         for j, m in enumerate(methods):
             self.dump_function('%s.m%d' % (path, j), m)
-        self.find_lines(path, 'm', [m.get('name') for m in methods])
+        self.find_lines(path, 'm', [self.fname(m) for m in methods])
 
     def dump_enum(self, path, e):
         gen = self.dialect == 'generate'
@@ -1071,17 +1181,17 @@ class Api(object):
 
     def members_common(self, path, e, with_fields):
         fields = e.findall(q('field')) if with_fields else []
-        props = e.findall(q('property'))
+        props = self.visible(e, q('property'))
         methods = self.functions_of(e)
-        signals = e.findall(gq('signal'))
-        vfuncs = e.findall(q('virtual-method'))
-        consts = e.findall(q('constant'))
+        signals = self.visible(e, gq('signal'))
+        vfuncs = self.visible(e, q('virtual-method'))
+        consts = self.visible(e, q('constant'))
         return fields, props, methods, signals, vfuncs, consts
 
     def dump_members(self, path, e, fields, props, methods, signals, vfuncs, consts):
         for j, f in enumerate(fields):
             self.dump_field('%s.f%d' % (path, j), f)
-        mnames = [m.get('name') for m in methods]
+        mnames = [self.fname(m) for m in methods]
         for j, pr in enumerate(props):
             self.dump_property('%s.p%d' % (path, j), pr, mnames)
         for j, m in enumerate(methods):
@@ -1388,7 +1498,11 @@ def judge(ctx, cnt, res, where):
     # (4): g-ir-generate
     if 'gen' in res:
         if res['gen_rc'] != 0:
-            fail('generate:crash', 'g-ir-generate ended with %r on a compiled typelib: %s' % (res['gen_rc'], res['gen_err'][-300:]))
+            key = 'generate:crash'
+            if (any(exp_api.entry_kind(e) == 4 for e in exp_api.entries)
+                    and "g_struct_info_get_copy_function: assertion 'GI_IS_STRUCT_INFO (info)' failed" in res['gen_err']):
+                key = 'generate:boxed:crash'
+            fail(key, 'g-ir-generate ended with %r on a compiled typelib: %s' % (res['gen_rc'], res['gen_err'][-300:]))
         else:
             try:
                 got = api_from_gir(res['gen'], 'generate')
@@ -1570,7 +1684,8 @@ def run(ctx):
     for k in range(n_gen):
         oc = [obj_masks[(3 * k + j) % 128] for j in range(3)]
         ic = [ifc_masks[(2 * k + j) % 64] for j in range(2)]
-        g = gen_gir(rng, 'T%d' % k, oc, ic, use_base=rng.random() < 0.8)
+        # g-ir-generate dies on every typelib with a <glib:boxed> (PENDING generate:boxed:crash): few of them
+        g = gen_gir(rng, 'T%d' % k, oc, ic, use_base=rng.random() < 0.8, with_boxed=rng.random() < 0.08)
         gens.append(g)
         cases.append(('generated', 'T%d' % k, g.text()))
         for lab, v in g.stats.counts.items():
@@ -1689,10 +1804,9 @@ def run(ctx):
     })
     ctx.assumptions.extend([
         'girwriter.c (typelib -> GIR text) is NOT modelled: g-ir-generate output is compared as an API tree with the source GIR (validated, not proved)',
-        'GIR -> blob translation (girparser.c/girnode.c) belongs to C06: where the compiler does not store a datum (return skip on '
-        'callbacks/signals/vfuncs, instance transfer on callbacks, return attributes of callbacks/vfuncs, property deprecated, '
-        'field readable attribute read inverted, attributes inside field/property/member elements attached to the container) the '
-        'oracle leaves the value open or the generator avoids the construct',
+        'GIR -> blob translation (girparser.c/girnode.c) belongs to C06: constructs the typelib format or the compiler does not store '
+        'are not generated (field bits, vfunc must-chain-up/override/is-class-closure, signal has-class-closure, an instance '
+        'parameter on a callback, deprecated on fields/vfuncs); everything generated is expected literally',
         'values computed by giroffsets.c (struct size/alignment, field offsets, enum storage) are wildcards in the oracle (C08)',
         'normalisation of g-ir-generate dialect: no c:type (pointer flags not compared), allow-none = nullable, type-name/get-type on '
         'unions and glib:*-function on classes read as their glib:* spellings, c:prefix, upper-case when=, a field whose type refers '
